@@ -415,20 +415,60 @@ func runQueue(ctx *RunCtx) *Result {
 		res.Add(term, js, fmt.Sprintf("%d|%d|%d", ctx.Seed, i, nact), nact > 0)
 		queueMonitor(res, ops, obs, js)
 
-		// Wake-up epilogue (implementation only, after the modelled history; C07 "started
-		// without further user action"): a due Job whose Add event reaches the controller
-		// before its JobConfig is in the JobConfig cache (the two informers fill
-		// independently, e.g. after a restart) is dropped by the event handler and must be
-		// picked up at the next informer resync. The pass runs only if the handlers put
-		// the JobConfig on the work queue.
+		// Epilogue (implementation only, after the modelled history): the Job and JobConfig
+		// informers fill independently (e.g. after a restart), so a Job's Add event can reach
+		// the controller before its JobConfig is in the JobConfig cache. The handler must
+		// neither hand an owned Job to the independent reconciler (no concurrency check there:
+		// C05, C06) nor lose it for good: the next informer resync must put the JobConfig on the
+		// work queue (C07 "started without further user action"). Passes run only for keys the
+		// real handlers queued.
 		if c.Chance(1, 2) {
 			im.api.faults = nil
+			settleQ := func() {
+				im.apply(qOp{Kind: "advcache", N: 1000})
+				im.apply(qOp{Kind: "store", N: 1000})
+				im.apply(qOp{Kind: "wake", N: 1000})
+			}
+			trueActive := func() int64 {
+				n := int64(0)
+				for _, rj := range im.api.listJobs() {
+					if metav1.GetControllerOf(rj) != nil && !rj.Status.StartTime.IsZero() && !rj.Status.Phase.IsTerminal() && rj.DeletionTimestamp == nil {
+						n++
+					}
+				}
+				return n
+			}
+			policy := "Allow"
+			if mx := im.jc.Spec.Concurrency.MaxConcurrency; mx != nil {
+				policy = Pick(c, []string{"Allow", "Enqueue", "Forbid"})
+				// fill up to the limit through the normal path, so that the limit is what decides
+				for k := 0; k < 4 && policy != "Allow" && trueActive() < *mx; k++ {
+					im.apply(qOp{Kind: "create", ID: nextID, Owned: true, Policy: "Allow", T: created + 1 + int64(k)})
+					nextID++
+					settleQ()
+					im.apply(qOp{Kind: "sync"})
+				}
+				settleQ()
+				if policy != "Allow" && trueActive() < *mx {
+					policy = "Allow"
+				}
+			}
 			id := nextID
+			before := trueActive()
 			im.sc.informers.JobConfigs.Remove("ns/" + jcName)
-			im.apply(qOp{Kind: "create", ID: id, Owned: true, Policy: "Allow", T: created + 1})
-			im.apply(qOp{Kind: "advcache", N: 1000})
-			im.apply(qOp{Kind: "store", N: 1000})
-			im.apply(qOp{Kind: "wake", N: 1000})
+			im.apply(qOp{Kind: "create", ID: id, Owned: true, Policy: policy, T: created + 10})
+			settleQ()
+			// whatever the handler put on the independent queue is worked
+			for im.iq.Len() > 0 {
+				k, _ := im.iq.Get()
+				im.iq.Done(k)
+				name := strings.TrimPrefix(k.(string), "ns/")
+				_ = im.indep.SyncOne(context.Background(), "ns", name, 0)
+			}
+			startedEarly := false
+			if rj := im.api.getJob(jobNameOf(id)); rj != nil && !rj.Status.StartTime.IsZero() {
+				startedEarly = true
+			}
 			im.sc.informers.JobConfigs.Set(im.jc)
 			for im.jcq.Len() > 0 {
 				k, _ := im.jcq.Get()
@@ -441,11 +481,18 @@ func runQueue(ctx *RunCtx) *Result {
 			if woken {
 				im.apply(qOp{Kind: "sync"})
 			}
-			res.Count("wake-epilogue")
-			if rj := im.api.getJob(jobNameOf(id)); rj == nil || rj.Status.StartTime.IsZero() {
+			res.Count("epilogue-" + policy)
+			epi := map[string]interface{}{"now": now, "max": max, "ops": ops, "epilogue": fmt.Sprintf("fill to the limit; create job%d (%s) while the JobConfig cache lags; work the independent queue; JobConfig arrives; resync", id, policy)}
+			rj := im.api.getJob(jobNameOf(id))
+			started := rj != nil && !rj.Status.StartTime.IsZero()
+			if policy == "Allow" && !started {
 				res.Hits = append(res.Hits, MonitorHit{"C07", "C07/due-job-never-woken",
-					fmt.Sprintf("job%d (Allow, due) was delivered before its JobConfig was cached; after the JobConfig arrived and the informer resynced, the JobConfig is on the work queue: %v; the Job is not started", id, woken),
-					map[string]interface{}{"now": now, "max": max, "ops": ops, "epilogue": "create job while the JobConfig cache lags, JobConfig arrives, resync"}})
+					fmt.Sprintf("job%d (Allow, due) was delivered before its JobConfig was cached; after the JobConfig arrived and the informer resynced, the JobConfig is on the work queue: %v; the Job is not started", id, woken), epi})
+			}
+			if policy != "Allow" && started {
+				what := fmt.Sprintf("job%d (%s) was started with %d Jobs of the JobConfig already active, maxConcurrency %d (started by the independent reconciler before the JobConfig was cached: %v)", id, policy, before, *im.jc.Spec.Concurrency.MaxConcurrency, startedEarly)
+				res.Hits = append(res.Hits, MonitorHit{"C05", "C05/exceeds-max-concurrency", what, epi})
+				res.Hits = append(res.Hits, MonitorHit{"C06", "C06/limit-ignored-for-" + strings.ToLower(policy), what, epi})
 			}
 		}
 	}
